@@ -142,3 +142,23 @@ def accelerate():
 
 
 accelerate()
+
+
+class debug_logging:
+    """Run a slice of the exploration with the library's DEBUG logging switched on (the log level is a configuration knob
+    that must not change any answer; several modules have `if logger.isEnabledFor(DEBUG)` blocks that touch live data)."""
+
+    def __enter__(self):
+        self.root = logging.getLogger()
+        self.old = self.root.level
+        self.handler = logging.NullHandler()
+        self.root.addHandler(self.handler)
+        self.root.setLevel(logging.DEBUG)
+        logging.disable(logging.NOTSET)
+        return self
+
+    def __exit__(self, *a):
+        logging.disable(logging.CRITICAL)
+        self.root.setLevel(self.old)
+        self.root.removeHandler(self.handler)
+        return False
